@@ -101,6 +101,23 @@ def generate(seed, tier="quick"):
             events.append({"t": "bind", "var": f"x{var_n}", "val": bc})
             events.append({"t": "cmp", "eid": f"e{eid_n}", "site": f"s{sid_n}", "var": f"x{var_n}", "style": "rec", "badcopy": True})
         tests.append({"name": f"test_t{ti}", "events": events})
+    if rng.random() < 0.3:
+        # a bound that is pushed further by the same object after a mutation, and the object is mutated again afterwards
+        var_n += 1
+        sid_n += 1
+        op = rng.choice(["le", "ge"])
+        n = rng.randint(2, 4)
+        val = ["list", [["int", rng.randint(0, 9)] for _ in range(n)]]
+        prev = rng.choice([None, None, val, ["list", [["int", 5]]]])
+        sites[f"s{sid_n}"] = {"op": op, "place": rng.choice(["func", "module", "lam"]), "arg": None if prev is None else V.expr(prev), "prev": prev}
+        events = [{"t": "bind", "var": f"x{var_n}", "val": val}]
+        further = "{var}.append(%d)" if op == "le" else "{var}.pop()"
+        for k in range(rng.randint(2, 3)):
+            eid_n += 1
+            events.append({"t": "cmp", "eid": f"e{eid_n}", "site": f"s{sid_n}", "var": f"x{var_n}", "style": "rec"})
+            how = further % rng.randint(0, 9) if "%d" in further else further
+            events.append({"t": "mutate", "var": f"x{var_n}", "how": how if k < n - 1 else "{var}.append(1)"})
+        tests.append({"name": f"test_ladder{var_n}", "events": events})
     # direct sites may be used by one textual event only: guaranteed by construction (fresh site per comparison)
     prog = {"files": [{"name": "test_a.py", "header": W.gen_layout(rng), "sites": sites, "tests": tests}], "pyproject": None}
     approved = rng.choice([["create", "fix"], ["create", "fix"], ["create"], ["create", "fix", "trim"], ["trim"], ["fix", "trim"]])
